@@ -56,7 +56,16 @@ def run_one(check, scn: dict) -> dict:
         out = check.execute(scn)
     except InvalidScenario as ex:
         return {"harness_error": "invalid scenario: %s" % ex, "invalid": True}
-    except Exception:  # harness error: never a violation, never a success
+    except Exception as ex:
+        # an exception that comes out of the code under test itself (innermost frame inside pydsdl) while the check was asking
+        # it something the property speaks about is behaviour of the code under test: a violation of the check's crash oracle.
+        # Anything else is a harness error: never a violation, never a success.
+        from dsim.checks.base import raised_inside_sut
+        oracle = getattr(check, "CRASH_ORACLE", None)
+        if oracle and raised_inside_sut(ex):
+            tb = "".join(traceback.format_tb(ex.__traceback__)[-4:])[-900:]
+            return {"viol": [{"oracle": oracle, "detail": "the code under test raised %s: %s\n%s" % (type(ex).__name__, str(ex)[:200], tb), "sig": "sut-raised:" + type(ex).__name__}],
+                    "digest": digest(["sut-raised", type(ex).__name__]), "xdigest": None, "stats": {"sut_raised": 1}, "shape": "sut-raised", "shapes": None, "nt": True}
         return {"harness_error": traceback.format_exc()[-3000:]}
     finally:
         workspace.end_run()
